@@ -135,6 +135,30 @@ pub fn triple_case(lx: Fq2, ly: Fq2, lz: Fq2, x: &F2, y: &F2, z: &F2) -> Result<
 /// point, normalise to it and double to the reference double; this drives the internal `squared`
 /// (inside ==, to_affine, double) with the operand s
 pub fn square_case(s: &F2) -> Result<u32, Bad> {
+    match square_case_raw(s) {
+        Err(b) if b.class == "squaring" && squaring_is_exonerated(s) => {
+            // the point code gave a wrong result although Fq2::squared / * / inverse (observed directly through the
+            // hook seam) are right on every operand involved: the cause is the point code's control flow
+            // (C04 / C15), not the agreement of multiplication and squaring that C12 states
+            crate::api::SKIPPED.lock().unwrap().push(format!("c12.squaring-via-G2 s={:x?}: point code wrong, Fq2 squaring right", s));
+            Ok(0)
+        }
+        r => r,
+    }
+}
+#[cfg(feature = "hooks")]
+fn squaring_is_exonerated(s: &F2) -> bool {
+    let g = &consts().g2;
+    let (x, y) = g.xy().unwrap();
+    let s2 = s.sq();
+    let s3 = s2.mul(s);
+    [s.clone(), s2.clone(), s3.clone(), s2.mul(x), s3.mul(y), x.clone(), y.clone(), F2::one()].iter().all(|v| crate::c17::c12_direct_case(v).is_ok())
+}
+#[cfg(not(feature = "hooks"))]
+fn squaring_is_exonerated(_s: &F2) -> bool {
+    false
+}
+fn square_case_raw(s: &F2) -> Result<u32, Bad> {
     if s.is_zero() {
         return Ok(0);
     }
